@@ -15,6 +15,7 @@ package test
 
 //@ table tmRuneRanges
 //@   fact len(tmRuneRanges) == 1
+//@   fact forall i in 0..len(tmRuneRanges) :: forall j in i+1..len(tmRuneRanges) :: tmRuneRanges[i].hi <= tmRuneRanges[j].lo
 //@   fact forall i in 0..len(tmRuneRanges) :: 1 <= tmRuneRanges[i].defaultVal && tmRuneRanges[i].defaultVal < 42 && 0 <= tmRuneRanges[i].lo && tmRuneRanges[i].lo < tmRuneRanges[i].hi
 //@   fact forall i in 0..len(tmRuneRanges) :: forall j in 0..len(tmRuneRanges[i].val) :: 1 <= tmRuneRanges[i].val[j] && tmRuneRanges[i].val[j] < 42
 
@@ -51,8 +52,12 @@ package test
 
 //@ func mapRune
 //@   ensures 1 <= result && result < 42
+//@   ensures forall i in 0..len(tmRuneRanges) :: (tmRuneRanges[i].lo <= c && c < tmRuneRanges[i].hi) ==> result == (c - tmRuneRanges[i].lo < len(tmRuneRanges[i].val) ? tmRuneRanges[i].val[c - tmRuneRanges[i].lo] : tmRuneRanges[i].defaultVal)
+//@   ensures (forall i in 0..len(tmRuneRanges) :: !(tmRuneRanges[i].lo <= c && c < tmRuneRanges[i].hi)) ==> result == 40
 //@   loop 1:
 //@     invariant 0 <= lo && lo <= hi && hi <= len(tmRuneRanges)
+//@     invariant forall k in 0..lo :: tmRuneRanges[k].hi <= c
+//@     invariant forall k in hi..len(tmRuneRanges) :: c < tmRuneRanges[k].lo
 //@     decreases hi - lo
 
 // mustParseInt never panics (the repair of the crash on literals that do not fit an int).
